@@ -41,7 +41,7 @@ theorem flatEs_map_render (ps : List Pend) :
 
 /-- the popped entries of a `chk` call -/
 def chkPopped (st : HSt) (e : ILEffect) (bare : List String) : List Pend :=
-  (popPending st.pending (tmpsOfEffect e ++ bare)).1
+  (popPending st.pending (bare ++ tmpsOfEffect e)).1
 
 /-- (4) shape: nothing popped → unchanged; else the rendered entries in front of `e` (after it for a loop step) -/
 theorem chk_shape (st : HSt) (e : ILEffect) (bare : List String) (after : Bool) :
@@ -49,10 +49,10 @@ theorem chk_shape (st : HSt) (e : ILEffect) (bare : List String) (after : Bool) 
     (chkPopped st e bare ≠ [] ∧
       (chk st e bare after).1 = (if after then .seqn (e :: (chkPopped st e bare).map Pend.render)
                                  else .seqn ((chkPopped st e bare).map Pend.render ++ [e])) ∧
-      (chk st e bare after).2 = { st with pending := (popPending st.pending (tmpsOfEffect e ++ bare)).2 }) := by
+      (chk st e bare after).2 = { st with pending := (popPending st.pending (bare ++ tmpsOfEffect e)).2 }) := by
   rw [chk_eq]
   unfold chkPopped
-  cases h : (popPending st.pending (tmpsOfEffect e ++ bare)).1 with
+  cases h : (popPending st.pending (bare ++ tmpsOfEffect e)).1 with
   | nil => left; simp
   | cons p ps => right; simp
 
@@ -97,11 +97,11 @@ theorem mem_setTmpsL_of_mem {e : ILEffect} {es : List ILEffect} {t : String} (he
 /-- (4) written before read at the consumer: every pending temporary named among the consumer's leaves
     (or carried by a bare expression statement) is set by the entries `chk` pulls out. -/
 theorem chk_sets_what_is_read (st : HSt) (e : ILEffect) (bare : List String)
-    (hs : ∀ p ∈ st.pending, shapeOK p) {t : String} (ht : t ∈ tmpsOfEffect e ++ bare)
+    (hs : ∀ p ∈ st.pending, shapeOK p) {t : String} (ht : t ∈ bare ++ tmpsOfEffect e)
     (hp : ∃ p ∈ st.pending, p.tmp = t) :
     t ∈ setTmpsL ((chkPopped st e bare).map Pend.render) := by
   obtain ⟨p, hp, rfl⟩ := hp
-  obtain ⟨h1, _, _, h4, _⟩ := popPending_spec st.pending (tmpsOfEffect e ++ bare)
+  obtain ⟨h1, _, _, h4, _⟩ := popPending_spec st.pending (bare ++ tmpsOfEffect e)
   obtain ⟨y, hy, hyt⟩ := h4 p hp ht
   have hyok := hs y (h1 y hy).1
   rw [← hyt]
@@ -109,12 +109,12 @@ theorem chk_sets_what_is_read (st : HSt) (e : ILEffect) (bare : List String)
 
 /-- (4) afterwards no pending entry is named among the consumer's leaves any more -/
 theorem chk_rest_unread (st : HSt) (e : ILEffect) (bare : List String) (after : Bool) :
-    ∀ p ∈ (chk st e bare after).2.pending, p.tmp ∉ tmpsOfEffect e ++ bare := by
-  obtain ⟨_, _, h3, _, h5, _⟩ := popPending_spec st.pending (tmpsOfEffect e ++ bare)
+    ∀ p ∈ (chk st e bare after).2.pending, p.tmp ∉ bare ++ tmpsOfEffect e := by
+  obtain ⟨_, _, h3, _, h5, _⟩ := popPending_spec st.pending (bare ++ tmpsOfEffect e)
   rcases chk_shape st e bare after with ⟨h1, h2⟩ | ⟨_, _, h2⟩
   · rw [h2]
     intro p hp hm
-    obtain ⟨_, _, _, h4, _⟩ := popPending_spec st.pending (tmpsOfEffect e ++ bare)
+    obtain ⟨_, _, _, h4, _⟩ := popPending_spec st.pending (bare ++ tmpsOfEffect e)
     obtain ⟨y, hy, _⟩ := h4 p hp hm
     unfold chkPopped at h1
     rw [h1] at hy; cases hy
